@@ -1707,8 +1707,21 @@ func (interp *Interpreter) cfg(root *node, sc *scope, importPath, pkgName string
 			n.gen = compositeGenerator(n, n.typ, nil)
 
 		case fallthroughtStmt:
-			if n.anc.kind != caseBody {
+			switch {
+			case n.anc.kind != caseBody || n.anc.lastChild() != n:
 				err = n.cfgErrorf("fallthrough statement out of place")
+			default:
+				// The clause must not be the last one of the source (the default
+				// clause may have been moved to the last position).
+				final := true
+				for _, c := range n.anc.anc.anc.child {
+					if c.pos > n.anc.anc.pos {
+						final = false
+					}
+				}
+				if final {
+					err = n.cfgErrorf("cannot fallthrough final case in switch")
+				}
 			}
 
 		case fileStmt:
